@@ -147,6 +147,21 @@ func (f *File) rescanRoots() {
 	}
 }
 
+// readOnlyTag reports whether the API call in progress is one of the entry points the property
+// says never write: everything through a snapshot, opening, lookups, visits, iterators, eviction,
+// snapshotting, serving as a CopyTo source, introspection - and untagged calls.  (Mutations and
+// collection management are not in that list: for them only the append-only rule applies.)
+func (f *File) readOnlyTag(tag string) bool {
+	if f.WriteTags[tag] {
+		return false
+	}
+	switch tag {
+	case "Set", "Delete", "SetCollection", "RemoveCollection", "Close", "FlushRevert":
+		return false
+	}
+	return true
+}
+
 // SetTag sets the API-call tag attached to subsequent calls.
 func (f *File) SetTag(t string) {
 	f.mu.Lock()
@@ -315,7 +330,7 @@ func (f *File) WriteAt(p []byte, off int64) (int, error) {
 	tag := f.curTag()
 	f.NWrites++
 	// C09 monitor
-	if !f.WriteTags[tag] {
+	if f.readOnlyTag(tag) {
 		f.violate("C09/write-from-non-writing-call/"+tag,
 			fmt.Sprintf("WriteAt(off=%d,len=%d) issued during %q", off, len(p), tag))
 	}
@@ -349,8 +364,9 @@ func (f *File) WriteAt(p []byte, off int64) (int, error) {
 		return n, ErrInjected
 	}
 	f.record(c)
-	if decoder.IsRootRecord(p, off) {
-		end := off + int64(len(p))
+	// a commit: a complete root record now ends exactly where this write ended (however many
+	// writes it took to produce it)
+	if end := off + int64(len(p)); len(p) > 0 && end <= int64(len(f.data)) && decoder.RootEndsAt(f.data, end) {
 		f.rootEnds = append(f.rootEnds, end)
 		f.durableEnd = end
 		if f.TrackValues {
@@ -441,6 +457,9 @@ func (f *File) Truncate(size int64) error {
 		if e == size {
 			okSize = true
 		}
+	}
+	if !okSize && size > 0 && size <= int64(len(f.data)) && decoder.RootEndsAt(f.data, size) {
+		okSize = true
 	}
 	if !okSize {
 		f.violate("C09/truncate-not-at-root-end/"+tag,
